@@ -288,6 +288,52 @@ func (w *respWriter) ReadFrom(r io.Reader) (int64, error) {
 	return w.Buffer.ReadFrom(r)
 }
 
+// overlapWriter takes the body in pieces, like a network connection does: a first small piece, then - while this
+// response is in flight - a complete second request (nested), then the rest
+type overlapWriter struct {
+	respWriter
+	nested func()
+	done   bool
+}
+
+func (w *overlapWriter) Write(b []byte) (int, error) {
+	if !w.done {
+		w.done = true
+		w.nested()
+	}
+	return w.respWriter.Write(b)
+}
+
+func (w *overlapWriter) ReadFrom(r io.Reader) (int64, error) {
+	w.freeze()
+	buf := make([]byte, 7)
+	k, err := r.Read(buf)
+	w.Buffer.Write(buf[:k])
+	n := int64(k)
+	if !w.done {
+		w.done = true
+		w.nested()
+	}
+	if err == io.EOF {
+		return n, nil
+	}
+	if err != nil {
+		return n, err
+	}
+	m, err := w.Buffer.ReadFrom(r)
+	return n + m, err
+}
+
+// fetchOverlap: two requests for the same URI, the second one made and completed while the first one has received
+// its first bytes only
+func fetchOverlap(m *gohlslib.Muxer, pathAndQuery string) (outer, inner response) {
+	u, _ := url.Parse("http://localhost/" + pathAndQuery)
+	w := &overlapWriter{respWriter: respWriter{h: make(http.Header)}}
+	w.nested = func() { inner = fetch(m, pathAndQuery) }
+	m.Handle(w, &http.Request{URL: u, Method: "GET"})
+	return response{status: w.status, body: append([]byte{}, w.Bytes()...)}, inner
+}
+
 type response struct {
 	status int
 	ctype  string
@@ -644,9 +690,10 @@ type winObs struct {
 }
 
 type probe struct {
-	uri    string
-	listed bool
-	resp   response
+	uri     string
+	listed  bool
+	resp    response
+	overlap []response // the same URI fetched by two overlapping requests (outer, inner), when tried
 }
 
 type runResult struct {
@@ -1259,9 +1306,15 @@ func runImpl(h *history, dir string) (res *runResult) {
 			for _, pp := range pm.trailing {
 				uris = append(uris, pp.uri)
 			}
-			for _, u := range uris {
+			for ui, u := range uris {
 				r := fetch(m, u)
-				rot.probes = append(rot.probes, probe{uri: u, listed: true, resp: r})
+				pb := probe{uri: u, listed: true, resp: r}
+				if len(uris) > 0 && ui == (k+si)%len(uris) {
+					// one listed URI per playlist and round is also fetched by two overlapping requests
+					o1, o2 := fetchOverlap(m, u)
+					pb.overlap = []response{o1, o2}
+				}
+				rot.probes = append(rot.probes, pb)
 				everListed[u] = true
 			}
 		}
